@@ -87,6 +87,12 @@ Inductive dstep : Z -> op1 -> dist -> dist -> Prop :=
     exchange d dl' -> Permutation (flat dr') side -> length dl' = length dr' ->
     key_partitioned (map (fun lr => fst lr ++ snd lr) (combine dl' dr')) ->
     dstep state (OJoinSide v lo side) d (map (fun lr => local_join v (fst lr) (snd lr)) (combine dl' dr'))
+  (* the same with the roles swapped: the side input is the LEFT side (any distribution [dl']
+     of it), the current stream is exchanged to the RIGHT side [dr'] *)
+| ds_join_side_l : forall state v lo side d dl' dr',
+    exchange d dr' -> Permutation (flat dl') side -> length dl' = length dr' ->
+    key_partitioned (map (fun lr => fst lr ++ snd lr) (combine dl' dr')) ->
+    dstep state (OJoinSideL v lo side) d (map (fun lr => local_join v (fst lr) (snd lr)) (combine dl' dr'))
 
 with dsteps : Z -> list op1 -> dist -> dist -> Prop :=
 | dss_nil : forall state d, dsteps state [] d d
